@@ -100,7 +100,8 @@ class TransformedHistogramMixin(abc.ABC):
     ):
         if not transformed:
             value = self.transform(value)
-        return super().fill(value=value, weight=weight, **kwargs)  # type: ignore
+        # The value is in the histogram's own coordinates now: find_bin must not transform it again
+        return super().fill(value=value, weight=weight, transformed=True, **kwargs)  # type: ignore
 
     def fill_n(
         self,
